@@ -807,3 +807,73 @@ func opsStr(m map[token.Token]int64) string {
 	sort.Strings(l)
 	return strings.Join(l, " or ")
 }
+
+// C19.R9 (= C09.R6): every message is counted exactly once across the whole input stage. compositeParser.Parse wraps the
+// syslog parser (which counts pass or drop, C09.R1) and the extraction transforms; enumerating its paths *through* the
+// inner parser, every outcome counts exactly one of {CountRecordPass, CountRecordDrop}. That the count of a record dropped
+// by an extraction is "pass" rather than "drop" is the known finding C19.R7; counting it a second time as dropped — the
+// obvious repair of that TODO — breaks "counted exactly once" and is reported here.
+func init() {
+	register("C19", "C19.R9", ruleC19R9)
+	register("C09", "C19.R9", ruleC19R9)
+}
+
+func ruleC19R9(c *Ctx) {
+	fn := c.P.Fn(aCompParse)
+	inner := c.P.Fn(aParse)
+	cs := &CountSpec{P: c.P, Classes: []string{"CountRecordPass", "CountRecordDrop"},
+		Descend: func(f *ssa.Function) bool {
+			n := anchorName(f)
+			return f == inner || n == aOnMalformed || n == aOnOverflow
+		},
+		Site: func(s ssa.CallInstruction) int {
+			// the inner parser is called through the LogParser interface: resolve it
+			for _, cal := range c.P.callees(s) {
+				switch {
+				case isAnchor(cal, aCountPass):
+					return 0
+				case isAnchor(cal, aCountDrop):
+					return 1
+				}
+			}
+			return -1
+		}}
+	// calls through the interface are not descended by the enumerator: splice the inner parser's outcomes in by hand
+	innerOuts := cs.Enum(inner, entryOf(inner), nil)
+	if len(innerOuts) == 0 {
+		broken("C19.R9: no path outcomes of syslogParser.Parse")
+	}
+	var innerCall ssa.CallInstruction
+	for _, s := range callsIn(fn) {
+		if s.Common().IsInvoke() && s.Common().Method.Name() == "Parse" {
+			innerCall = s
+		}
+	}
+	if innerCall == nil {
+		broken("C19.R9: compositeParser.Parse no longer calls the wrapped parser")
+	}
+	outerOuts := cs.Enum(fn, after(innerCall), nil)
+	good := len(outerOuts) > 0
+	var why []string
+	n := 0
+	for _, io := range innerOuts {
+		for _, oo := range outerOuts {
+			// a nil record from the inner parser (dropped there) takes the early-return path of the wrapper only
+			if io.Ret == "nil" && (oo.Counts[0]+oo.Counts[1] > 0) {
+				continue // infeasible pairing: nothing of the wrapper's own counting runs for a record the parser dropped
+			}
+			n++
+			pass, drop := io.Counts[0]+oo.Counts[0], io.Counts[1]+oo.Counts[1]
+			if pass+drop != 1 {
+				good = false
+				why = append(why, fmt.Sprintf("parser path {%s} then wrapper path {%s}: pass=%d drop=%d", cs.describe(io), cs.describe(oo), pass, drop))
+			}
+		}
+	}
+	if len(why) > 3 {
+		why = why[:3]
+	}
+	c.check(good, "C19.R9", fn, "every message is counted exactly once across the input stage", innerCall.Pos(),
+		fmt.Sprintf("%d combinations of parser and wrapper paths: exactly one of pass / drop each", n),
+		"a message is counted more than once (or not at all) on its way through the parser and the extraction transforms — e.g. counted as passed by the parser and again as dropped by the wrapper: passed + dropped no longer equals the number of messages: "+strings.Join(why, "; "))
+}
